@@ -138,6 +138,9 @@ def context_scripts(rng, n):
         if k % 2 == 0:
             L += ["us = Ultrasonic(2, 3)", "items = [q for q in range(3)]", "text = mon.read()", "while True:", "    mon.write(us.measure_distance())",
                   "    mon.write(len(text))", "    mon.write(len(items))", "    mon.write(items[0])"]
+        elif k % 4 == 1:
+            # run-time len() of a String in a script without any list (only the len helper snippet is needed)
+            L += ["text = mon.read()", "mon.write(len(text))", "while True:", "    line = mon.read()", "    mon.write(len(line) + 1)", "    sleep(5)"]
         out.append("\n".join(L) + "\n")
     return out
 
@@ -157,8 +160,10 @@ def collision_scripts(rng, n):
             # same helper name / parameter text / call signatures, different bodies
             b1, b2 = rng.sample(bodies, 2)
             arg = rng.choice(["1.5", "3", '"ab"' if "0.5" not in b1 + b2 and "1.5" not in b1 + b2 and "100" not in b1 + b2 and "* 2" not in b1 + b2 else "2.5"])
-            L += [f"def scale(v):\n    {b1}", f"def ready(v):\n    {b2}", f"reading = scale({arg})", "mon.write(reading)", "margin = ready(3)", "mon.write(margin)",
-                  f"again = scale({rng.choice(['2', '0.25'])})", "mon.write(again)"]
+            # (float arguments go through variables: a double LITERAL passed to a helper that also has an int overload is
+            # ambiguous in C++ - known finding KF-overload-double-literal)
+            L += ["fa = 1.5", "fb = 0.25", f"def scale(v):\n    {b1}", f"def ready(v):\n    {b2}", f"reading = scale({'fa' if '.' in arg else arg})", "mon.write(reading)",
+                  "margin = ready(3)", "mon.write(margin)", f"again = scale({rng.choice(['2', 'fb'])})", "mon.write(again)"]
         elif kind == 1:
             # the same tune from setup(), from the main loop, from a helper; explicit / default / run-time tempo
             tune = rng.choice(tunes)
